@@ -79,6 +79,23 @@ def regions_of(schema, j1):
     return regs
 
 
+def duplicate_class_names(doc):
+    """two different class bodies under one title (one `definitions` entry then serves both)"""
+    seen = {}
+
+    def walk(d):
+        if isinstance(d, dict):
+            if d.get("type") == "object" and isinstance(d.get("title"), str):
+                body = json.dumps(d, sort_keys=True, default=str)
+                if seen.setdefault(d["title"], body) != body:
+                    return True
+            return any(walk(v) for v in d.values())
+        if isinstance(d, list):
+            return any(walk(v) for v in d)
+        return False
+    return walk(doc)
+
+
 def check_case(drv, schema, out, stats):
     rt = round_trip(schema)
     case = {"schema": schema}
@@ -128,6 +145,36 @@ def check_case(drv, schema, out, stats):
     rep2 = drv.ask({"op": "parse_serialize", "schema": core.enc_val(flat), "tables": core.schema_tables(flat, [])})
     if "error" not in rep2 and not (rep2.get("r") == "ok" and rep2["json"] == strict(j2)):
         out.disagreements.append({"what": "second-round document", "impl": strict(j2), "model": rep2.get("json"), "schema": flat})
+    # the theorem's object on the real code: `toSchema` against the real document, and inside the normal form (`NF`, the
+    # hypothesis of C06_partial_round_trip) the second parse must give the very same tree, whatever region the schema is in
+    try:
+        dump1, dump2 = core.dump_elem(rt["el"]), core.dump_elem(rt2["el"])
+        ts = drv.ask({"op": "to_schema", "elem": dump1, "doc": core.enc_val(flat), "tables": core.schema_tables(flat, [])})
+    except (TypeError, ValueError, RecursionError):
+        ts = {"error": "undumpable"}
+    if "error" in ts:
+        stats["to_schema-skipped"] = stats.get("to_schema-skipped", 0) + 1
+    else:
+        in_tie = "C06-class-name-suffixes" not in regs and not duplicate_class_names(j1)
+        label = "to_schema-" + ("same" if ts["same"] else ("differs-outside-tie" if not in_tie else "DIFFERS"))
+        stats[label] = stats.get(label, 0) + 1
+        if not ts["same"] and in_tie:
+            out.disagreements.append({"what": "toSchema (schema-level serializer model) vs dereferenced serialize_json output", "impl": flat, **case})
+        stats["normal-form-" + str(bool(ts["nf"]))] = stats.get("normal-form-" + str(bool(ts["nf"])), 0) + 1
+        if ts["nf"] and not ts["round_trip_identity"]:
+            out.disagreements.append({"what": "model: NF tree whose model round trip is not the identity (contradicts C06_partial_round_trip)", **case})
+        if not ts["nf"] and not regs:
+            stats["not-normal-form-outside-listed-regions"] = stats.get("not-normal-form-outside-listed-regions", 0) + 1
+        if ts["nf"] and ts["same"]:
+            stats["theorem-instances-on-real-code"] = stats.get("theorem-instances-on-real-code", 0) + 1
+            if dump1 != dump2:
+                out.failures.append({"case": case, "finding": None,
+                                     "what": "inside the normal form (hypothesis of C06_partial_round_trip) the second parse gives a different tree: " + first_diff(dump1, dump2)})
+                return
+            if strict(j1) != strict(j2):
+                out.failures.append({"case": case, "finding": None,
+                                     "what": "inside the normal form the second-round document differs at " + first_diff(j1, j2)})
+                return
     if strict(j1) != strict(j2):
         diff = first_diff(j1, j2)
         fail(f"second round differs from the first at {diff}",
